@@ -150,6 +150,10 @@ def rows():
     ]:
         for v in vals:
             add(f"{flag[2:]}={v}", [flag, v], [[meth, v]], "str")
+        if len(vals) >= 2 and flag not in ("--ctypes-prefix", "--anon-fields-prefix", "--wasm-import-module-name", "--wrap-static-fns-suffix"):
+            # repeated flag: every value, in an order that is not the sorted one (insertion order must survive the round trip)
+            rv = sorted(vals, reverse=True)
+            add(f"{flag[2:]}-repeated-descending", [x for v in rv for x in (flag, v)], [[meth, v] for v in rv], "str")
     # enumerated domains
     for v in ["consts", "moduleconsts", "bitfield", "newtype", "newtype_global", "rust", "rust_non_exhaustive"]:
         add(f"default-enum-style={v}", ["--default-enum-style", v], [["default_enum_style", v]], "enum")
@@ -184,6 +188,15 @@ def rows():
     add("rustfmt-configuration-file", ["--rustfmt-configuration-file", "@WD@/rustfmt.toml"], [["rustfmt_configuration_file", "@WD@/rustfmt.toml"]], "str")
     add("wrap-static-fns-path", ["--wrap-static-fns", "--wrap-static-fns-path", "@WD@/wrap"], [["wrap_static_fns", True], ["wrap_static_fns_path", "@WD@/wrap"]], "str")
     add("field-attr", ["--field-attr", "S::a=#[cfg(all())]"], [["field_attribute", "S", "a", "#[cfg(all())]"]], "str")
+    # values that themselves contain the KEY=VALUE separator, on either side of it
+    add("field-attr-eq-in-value", ["--field-attr", 'S::b=#[doc = "the b = field"]'], [["field_attribute", "S", "b", '#[doc = "the b = field"]']], "str")
+    add("field-attr-x2-same-field", ["--field-attr", 'S::a=#[doc = "z"]', "--field-attr", "S::a=#[cfg(all())]", "--field-attr", 'S::c=#[doc = "a"]'],
+        [["field_attribute", "S", "a", '#[doc = "z"]'], ["field_attribute", "S", "a", "#[cfg(all())]"], ["field_attribute", "S", "c", '#[doc = "a"]']], "str")
+    add("override-abi-eq-in-regex", ["--override-abi", "fn_[=a]=stdcall"], [["override_abi", "stdcall", "fn_[=a]"]], "str")
+    add("module-raw-line-descending", ["--enable-cxx-namespaces", "--module-raw-line", "root::ns", "pub type Z9 = i8;", "--module-raw-line", "root::ns", "pub type M5 = i16;",
+                                       "--module-raw-line", "root", "pub type Y = u8;", "--module-raw-line", "root::ns", "pub type A1 = i32;", "--module-raw-line", "root", "pub type B = u8;"],
+        [["enable_cxx_namespaces"], ["module_raw_line", "root::ns", "pub type Z9 = i8;"], ["module_raw_line", "root::ns", "pub type M5 = i16;"], ["module_raw_line", "root", "pub type Y = u8;"],
+         ["module_raw_line", "root::ns", "pub type A1 = i32;"], ["module_raw_line", "root", "pub type B = u8;"]], "str")
     add("clang-args", ["--", "-DFOO=1", "-I", "@WD@", "-Wno-everything"], [["clang_args", "-DFOO=1", "-I", "@WD@", "-Wno-everything"]], "str")
     add("clang-arg-single", ["--", "-DBAR"], [["clang_arg", "-DBAR"]], "str")
     return R
